@@ -1,5 +1,8 @@
 import TinsModel.Ack.Refine
 import TinsModel.Ack.SpecLemmas
+import TinsModel.Ack.WireLemmas
+import TinsModel.Ack.Safety
+import TinsModel.Ack.Icl
 /-
   Property C19 — the ACK/SACK tracker agrees with a set-of-acknowledged-bytes model.
 
@@ -8,10 +11,14 @@ import TinsModel.Ack.SpecLemmas
   `conforming a0 [] h` is the hypothesis of the property (ACK never moves backwards, blocks strictly above it, a later
   ACK never inside an earlier block — i.e. what a receiver emits, `SpecLemmas.cumAck_mono` /
   `later_ack_not_in_block` — and everything the observer compares within half the sequence space).
-  Helper lemmas live in `TinsModel/Ack/{Lemmas,Refine,SpecLemmas}.lean`.
+  Helper lemmas live in `TinsModel/Ack/{Lemmas,Canon,Refine,SpecLemmas,WireLemmas,Safety,Icl}.lean`.
+
+  Second half of the file: the same statements *from wire bytes* (`ack_refines_wire`, composing the Transport family's
+  model of `TCP::TCP(buffer,size)` / `sack()`), the decoder facts, the safety part for all histories and all byte
+  strings, and the explicit interval-set contract.
 -/
 namespace Tins.Props.C19
-open Tins Tins.Ack Tins.Ack.Spec
+open Tins Tins.Ack Tins.Ack.Spec Tins.Wire.Transport
 
 /-- the tracker `AckTracker(a0 mod 2^32, use_sack = true)` after it has processed the history `h` -/
 def trackerAfter (a0 : Nat) (h : List Pkt) : Tracker := run (Tracker.init (wrap32 a0) true) h
@@ -173,5 +180,244 @@ example : conforming 4294967290 [] [⟨4294967290, [(4294967291, 4294967290 + 21
     the next expected position (12). Outside the property's hypothesis; compared model-vs-code only. -/
 example : pktOK 10 [] ⟨0, [(9, 12)]⟩ = false := by decide
 example : (feed (Tracker.init 10 true) ⟨0, [(9, 12)]⟩).ack = 11 := by decide
+
+/-! ## From wire bytes to the acknowledged set
+
+  `processWire t bytes` is `AckTracker::process_packet(TCP(bytes, size))`: the byte-level model of the parsing constructor
+  and of `search_option(SACK)` / `to<sack_type>()` (Transport wire family, properties C01/C04) composed with the
+  tracker model.  `encodeSeg sh k` is the packet `k` of the specification put on the wire by the reference encoder
+  (`Ack/Wire.lean: refSegment`, RFC 793 / RFC 2018): the cumulative ACK mod 2^32 in the header, the blocks' edges
+  big-endian in a SACK option, anything well-formed around it (`SegShape`). -/
+
+/-- **Wire refinement.** A conforming history, each packet encoded as a TCP segment — with any other header fields,
+    any well-formed options (NOP padding, timestamps, …) in front of and behind the SACK option, the SACK option
+    omitted or empty when there is no block, any payload — and handed to the tracker as bytes: `ack_number()` is the
+    image of the cumulative ACK and `acked_intervals()` holds exactly the images of the selectively acknowledged
+    positions above it.  (At most 40 option bytes, hence at most 4 blocks: `SegShape.OK.blocks_le`.) -/
+theorem ack_refines_wire (a0 : Nat) (h : List (Pkt × SegShape)) (hok : ∀ x ∈ h, x.2.OK x.1)
+    (hc : conforming a0 [] (h.map (·.1)) = true) :
+    let t := wireRun (Tracker.init (wrap32 a0) true) (h.map (fun x => encodeSeg x.2 x.1))
+    t = trackerAfter a0 (h.map (·.1)) ∧
+    t.ack = wrap32 (cumAck a0 (h.map (·.1))) ∧
+    ∀ x, ISet.mem t.ivs x = true ↔
+      ∃ p, wrap32 p = x ∧ cumAck a0 (h.map (·.1)) < p ∧ sacked (allBlocks [] (h.map (·.1))) p = true := by
+  have hw := wireRun_encode (Tracker.init (wrap32 a0) true) h hok
+  have hr := ack_refines a0 (h.map (·.1)) hc
+  simp only
+  rw [hw]
+  exact ⟨rfl, hr.1, hr.2⟩
+
+/-- … and the query on that tracker: `is_segment_acked` is the byte-level definition (inside the window). -/
+theorem segment_acked_iff_wire (a0 : Nat) (h : List (Pkt × SegShape)) (hok : ∀ x ∈ h, x.2.OK x.1)
+    (hc : conforming a0 [] (h.map (·.1)) = true) (s n : Nat)
+    (hd : queryInDomain (cumAck a0 (h.map (·.1))) s n = true) :
+    isSegmentAcked (wireRun (Tracker.init (wrap32 a0) true) (h.map (fun x => encodeSeg x.2 x.1))) (wrap32 s) n = true ↔
+      SegAcked (cumAck a0 (h.map (·.1))) (allBlocks [] (h.map (·.1))) s n := by
+  rw [wireRun_encode _ h hok]
+  exact segment_acked_iff a0 _ hc s n hd
+
+/-- one step of the above from **any** tracker state: the encoded packet acts as `feed`, and `process_packet` returns
+    normally -/
+theorem wire_step_is_feed (t : Tracker) (sh : SegShape) (k : Pkt) (h : sh.OK k) :
+    processWire t (encodeSeg sh k) = (feed t k, .done) :=
+  wireStep_encodeSeg t sh k h
+
+/-- **Decoder facts.** The typed SACK decoder of the Transport family (`Tcp.decodeSack`, the stream loop of
+    `convert_vector<uint32_t>`) is the tracker model's decoder: big-endian 32-bit words; `malformed_option` exactly when
+    the data size is not a multiple of four; every decoded edge is a 32-bit number. -/
+theorem sack_decoder_facts (o : TcpOpt) :
+    (Tcp.decodeSack o = if o.data.length % 4 != 0 then .throw .malformedOption else .ok (decodeEdges o.data)) ∧
+    (decodeSack o.data = .malformed ↔ o.data.length % 4 ≠ 0) ∧
+    (∀ x ∈ decodeEdges o.data, x < 4294967296) ∧
+    (∀ a b c d : UInt8, ∀ r, decodeEdges (a :: b :: c :: d :: r) =
+      (a.toNat * 16777216 + b.toNat * 65536 + c.toNat * 256 + d.toNat) :: decodeEdges r) :=
+  ⟨tcp_decodeSack_eq o, decodeSack_malformed_iff o.data, decodeEdges_lt o.data, fun _ _ _ _ _ => rfl⟩
+
+/-- **Any SACK option bytes.** A segment whose SACK option carries arbitrary data bytes `d` (other options as above):
+    the tracker processes the cumulative ACK and then `decodeSack d`. -/
+theorem wire_any_sack_bytes (t : Tracker) (h : Tcp) (pre post : List TcpOpt) (d payload : Bytes) (hi : h.Inv)
+    (hc : ∀ o ∈ pre ++ post, Tcp.Canon o) (h1 : ∀ o ∈ pre ++ post, o.code ≠ Tcp.SACK) (hd : d.length ≤ 253)
+    (hf : Tcp.optsSum (pre ++ [⟨Tcp.SACK, d.length, d⟩] ++ post) ≤ 40) :
+    processWire t (refSegment h (pre ++ [⟨Tcp.SACK, d.length, d⟩] ++ post) payload) =
+      ((processPacket t h.ackSeq (decodeSack d)).1,
+        if (processPacket t h.ackSeq (decodeSack d)).2 then .malformedOption else .done) :=
+  processWire_refSegment t h pre post d payload hi hc h1 hd hf
+
+/-- **Malformed SACK option** (option length not `2 + 4k`): `malformed_option` leaves `process_packet` *after* the
+    cumulative ACK has been processed — the tracker is in the state `ackStep` (ACK advanced, intervals at or below it
+    erased, nothing inserted) and stays usable. -/
+theorem wire_malformed_sack (t : Tracker) (hs : t.useSack = true) (h : Tcp) (pre post : List TcpOpt)
+    (d payload : Bytes) (hi : h.Inv) (hc : ∀ o ∈ pre ++ post, Tcp.Canon o) (h1 : ∀ o ∈ pre ++ post, o.code ≠ Tcp.SACK)
+    (hd : d.length ≤ 253) (hf : Tcp.optsSum (pre ++ [⟨Tcp.SACK, d.length, d⟩] ++ post) ≤ 40)
+    (hm : d.length % 4 ≠ 0) :
+    processWire t (refSegment h (pre ++ [⟨Tcp.SACK, d.length, d⟩] ++ post) payload) =
+      (ackStep t h.ackSeq, .malformedOption) := by
+  rw [processWire_refSegment t h pre post d payload hi hc h1 hd hf, (decodeSack_malformed_iff d).2 hm,
+    processPacket_malformed t h.ackSeq hs]
+  rfl
+
+/-- **Odd edge count** (option length `2 + 4k`, `k` odd): *not* an error in libtins — the converter only tests
+    `size % 4`, and `process_sack` pairs the edges up and never reads the last one. -/
+theorem odd_edge_count_drops_last (t : Tracker) (es : List Nat) (x : Nat) (he : es.length % 2 = 0) :
+    processSack t (es ++ [x]) = processSack t es :=
+  processSack_odd x es t he
+
+/-! ## Every history, conforming or not -/
+
+/-- **No input is outside the model, nothing faults.** For every well-formed tracker state and every byte string:
+    `TCP(bytes)` throws `malformed_packet` and the tracker is untouched, or `process_packet` returns, or it throws
+    `malformed_option` with the tracker in the state `ackStep` — never a fault of the parser or decoder, never another
+    exception; the state stays well-formed. -/
+theorem wire_total_any_bytes (t : Tracker) (b : Bytes) (hg : Good t) :
+    Good (processWire t b).1 ∧
+    ((processWire t b).2 = .malformedPacket ∧ (processWire t b).1 = t ∨
+     (processWire t b).2 = .done ∨
+     ∃ a, a < 4294967296 ∧ (processWire t b).2 = .malformedOption ∧ (processWire t b).1 = ackStep t a) :=
+  processWire_total t b hg
+
+/-- … for whole histories of arbitrary byte strings -/
+theorem wire_history_any_bytes (a0 : Nat) (b : Bool) (segs : List Bytes) :
+    Good (wireRun (Tracker.init (wrap32 a0) b) segs) :=
+  good_wireRun _ segs ⟨wrap32_lt a0, trivial⟩
+
+/-- **State well-formed after any packet**: 32-bit ACK number, canonical interval list (ascending, non-empty,
+    non-touching), every edge a 32-bit number — for any 32-bit ACK and any edge vector. -/
+theorem sane_preserved_by_any_packet (t : Tracker) (a : Nat) (sack : SackOpt) (hs : Sane t) (ha : a < 4294967296)
+    (he : ∀ e, sack = .edges e → ∀ x ∈ e, x < 4294967296) : Sane (processPacket t a sack).1 :=
+  sane_processPacket t a sack hs ha he
+
+/-- **`is_segment_acked` is total and means this, in every state**: at most two pieces, each a non-empty 32-bit
+    interval (so `icl::contains` is only ever asked about non-empty closed intervals), and the answer is "every piece
+    ends before the ACK number or lies in the interval set". -/
+theorem is_segment_acked_any_state (t : Tracker) (s n : Nat) (hs : s < 4294967296) (hn : n ≠ 0) :
+    ((Range.mk s (wrap32 (s + n + 4294967295))).intervals.length ≤ 2 ∧
+      ∀ i ∈ (Range.mk s (wrap32 (s + n + 4294967295))).intervals, i.lo ≤ i.hi ∧ i.hi < 4294967296) ∧
+    (isSegmentAcked t s n = true ↔
+      ∀ i ∈ (Range.mk s (wrap32 (s + n + 4294967295))).intervals,
+        seqCompare i.hi t.ack < 0 ∨ ∀ p, i.lo ≤ p → p ≤ i.hi → ISet.mem t.ivs p = true) := by
+  refine ⟨⟨?_, fun i hi => intervals_nonempty s _ hs (wrap32_lt _) i hi⟩, isSegmentAcked_pointwise t s n hs hn⟩
+  rw [intervals_raw _ _ hs (wrap32_lt _)]
+  split <;> split <;> simp
+
+/-- The invariant one would like for all histories: every stored point lies ahead of the ACK number
+    (`seq_compare(p, ack_number_) > 0`, i.e. within `(ack, ack + 2^31]`).  It does **not** hold — refuted below. -/
+def WindowInvariantAllHistories : Prop :=
+  ∀ (t : Tracker) (a : Nat) (e : List Nat), Sane t → InWindow t → a < 4294967296 → (∀ x ∈ e, x < 4294967296) →
+    InWindow (processPacket t a (.edges e)).1
+
+/-- witness 1 (SACK block straddling the ACK number): ACK 10, stored `[20,30]`; the block `[5,100)` makes the code
+    *assign* `ack_number_ = 99` without erasing — `[20,30]` is left behind the ACK number. -/
+theorem windowInvariantAllHistories_fails : ¬ WindowInvariantAllHistories := by
+  intro hall
+  have h := hall ⟨10, [⟨20, 30⟩], true⟩ 10 [5, 100]
+    ⟨by decide, ⟨by decide, trivial, trivial⟩, by intro j hj; simp only [List.mem_singleton] at hj; subst hj; decide⟩
+    (by intro p hp; simp [ISet.mem] at hp; unfold sub32; simp only; omega)
+    (by decide) (by decide)
+  have h20 := h 20 (by decide)
+  revert h20; decide
+
+/-- **Window, proved part.** Every packet whose ACK does not jump by exactly 2^31 and none of whose blocks straddles
+    the ACK number keeps all stored points ahead of the ACK number.  No other conformance is needed: the ACK may stand
+    still or "go back" (ignored), blocks may be empty, reversed, below the ACK, beyond the window (all skipped by the
+    code), overlapping or repeated. The excluded region is decidable: `sub32 a t.ack = 2^31 ∨ ¬ edgesHigh …`. -/
+theorem window_invariant_partial (t : Tracker) (a : Nat) (e : List Nat) (hs : Sane t) (hw : InWindow t)
+    (ha : a < 4294967296) (he : ∀ x ∈ e, x < 4294967296) (hj : sub32 a t.ack ≠ 2147483648)
+    (hh : edgesHigh (ackStep t a).ack e = true) : InWindow (processPacket t a (.edges e)).1 :=
+  inWindow_processPacket t a e hs hw ha he hj hh
+
+/-- `InWindow` is the C++ comparison: `seq_compare(p, ack_number_) > 0` for every stored point -/
+theorem inWindow_iff_seqCompare (t : Tracker) (hs : Sane t) :
+    InWindow t ↔ ∀ p, ISet.mem t.ivs p = true → seqCompare p t.ack > 0 := by
+  constructor
+  · intro h p hp
+    exact (seqCompare_pos_iff p t.ack (mem_lt_of_bnd hs.2.2 hp) hs.1).2 (h p hp)
+  · intro h p hp
+    exact (seqCompare_pos_iff p t.ack (mem_lt_of_bnd hs.2.2 hp) hs.1).1 (h p hp)
+
+/-! ### surprising but harmless: what the code does on non-conforming input (each compared with the real class by the
+    `CORPUS` cases of checks/C19.py) -/
+
+/-- witness 2 (the other way to break the window): an ACK jumping by exactly 2^31 is accepted
+    (`seq_compare(new, old) > 0`) but `AckedRange(old, new).has_next()` is false: nothing is erased, and the stored
+    interval `[20,30]` ends up *behind* the new ACK number. -/
+example : (processPacket ⟨10, [⟨20, 30⟩], true⟩ 2147483658 .absent).1 = ⟨2147483658, [⟨20, 30⟩], true⟩ := by decide
+example : seqCompare 20 2147483658 < 0 := by decide
+
+/-- witness 3 (a straddling block across the wrap point moves the ACK number *backwards*): ACK 5, block
+    `[4294967280, 11)`.  The first piece `[4294967280, 4294967295]` "starts before the ACK", so the ACK number becomes
+    its end, 4294967295 — six positions *back* — and the second piece `[0, 10]` is then inserted.  Position 4294967295
+    was acknowledged before the packet and is not afterwards; the unwrapped analogue (ACK 21, block `[16, 27)`) gives
+    ACK 26 and no interval.  Non-conforming input (RFC 2018: blocks lie above the cumulative ACK); no fault, state
+    well-formed (`sane_preserved_by_any_packet`). -/
+example : (processPacket (Tracker.init 5 true) 5 (.edges [4294967280, 11])).1 = ⟨4294967295, [⟨0, 10⟩], true⟩ := by decide
+example : isSegmentAcked (Tracker.init 5 true) 4294967295 1 = true ∧
+    isSegmentAcked ⟨4294967295, [⟨0, 10⟩], true⟩ 4294967295 1 = false := by decide
+example : (processPacket (Tracker.init 21 true) 21 (.edges [16, 27])).1 = ⟨26, [], true⟩ := by decide
+
+/-- witness 4: an odd number of edges — the last one is never looked at -/
+example : decodeSack (encodeEdges [20, 30, 40]) = .edges [20, 30, 40] ∧
+    processSack (Tracker.init 10 true) [20, 30, 40] = processSack (Tracker.init 10 true) [20, 30] := by decide
+
+/-- witness 5: a SACK option of 5 data bytes on the wire (kind 5, length 7, after two NOPs): the cumulative ACK 100 is
+    processed — `[20,30]` is erased — and `malformed_option` leaves `process_packet` -/
+example : processWire ⟨10, [⟨20, 30⟩], true⟩
+    (refSegment { Tcp.create 1234 80 with ackSeq := 100 } [⟨1, 0, []⟩, ⟨1, 0, []⟩, ⟨5, 5, [0, 0, 0, 20, 0]⟩] []) =
+      (⟨100, [], true⟩, .malformedOption) := by decide
+
+/-! ### non-vacuity of the wire theorems -/
+
+/-- `sampleHistory` on the wire: NOP NOP in front of the SACK option, a timestamp option behind it, empty SACK omitted
+    in the last packet, 3 payload bytes -/
+def sampleShape : SegShape :=
+  { hdr := Tcp.create 1234 80, pre := [⟨1, 0, []⟩, ⟨1, 0, []⟩], post := [⟨8, 8, [0, 0, 0, 1, 0, 0, 0, 2]⟩],
+    omitEmpty := true, payload := [1, 2, 3] }
+
+def sampleWire : List (Pkt × SegShape) := sampleHistory.map (fun k => (k, sampleShape))
+
+theorem sampleShape_ok : ∀ x ∈ sampleWire, x.2.OK x.1 := by
+  intro x hx
+  simp only [sampleWire, sampleHistory, List.map_cons, List.map_nil, List.mem_cons, List.mem_nil_iff, or_false] at hx
+  have hdr : sampleShape.hdr.Inv := tcp_create_inv 1234 80
+  have hcan : ∀ o ∈ sampleShape.pre ++ sampleShape.post, Tcp.Canon o := by
+    intro o ho
+    simp only [sampleShape, List.cons_append, List.nil_append, List.mem_cons, List.mem_nil_iff, or_false] at ho
+    rcases ho with ho | ho | ho <;> subst ho <;> exact ⟨by decide, rfl, by decide, by decide⟩
+  have hone : ∀ o ∈ sampleShape.pre ++ sampleShape.post, o.code ≠ Tcp.SACK := by
+    intro o ho
+    simp only [sampleShape, List.cons_append, List.nil_append, List.mem_cons, List.mem_nil_iff, or_false] at ho
+    rcases ho with ho | ho | ho <;> subst ho <;> decide
+  rcases hx with hx | hx | hx | hx <;> subst hx <;> exact ⟨hdr, hcan, hone, by decide⟩
+
+example : conforming 8589934582 [] (sampleWire.map (·.1)) = true := by decide
+/-- the second packet of the sample on the wire: 20 header bytes, data offset 15, `01 01 05 12 <4 edges> 08 0a …`, payload -/
+example : (encodeSeg sampleShape ⟨8589934585, [(8589934589, 8589934597), (8589934600, 8589934610)]⟩).length = 55 ∧
+    ((encodeSeg sampleShape ⟨8589934585, [(8589934589, 8589934597), (8589934600, 8589934610)]⟩).drop 20).take 8 =
+      [1, 1, 5, 18, 255, 255, 255, 253] := by decide
+example : ∀ x ∈ sampleWire, processWire (Tracker.init 4294967286 true) (encodeSeg x.2 x.1) =
+    (feed (Tracker.init 4294967286 true) x.1, .done) := fun x hx => wire_step_is_feed _ _ _ (sampleShape_ok x hx)
+/-- `window_invariant_partial`'s hypotheses on a non-conforming packet: a reversed block, a block below the ACK, a block
+    beyond the window and a good one -/
+example : edgesHigh (ackStep ⟨10, [⟨20, 30⟩], true⟩ 15).ack [40, 35, 2, 8, 3000000000, 3000000010, 50, 60] = true ∧
+    sub32 15 10 ≠ 2147483648 := by decide
+/-- the list model is a model of the icl contract, and the contract's uniqueness applies to it -/
+example : (listModel.iter ((([IclOp.ins 5 9, .ins 10 12, .del 7 7, .ins 4294967295 4294967295, .ins 0 0]).foldl
+    listModel.apply listModel.empty))) = [⟨0, 0⟩, ⟨5, 6⟩, ⟨8, 12⟩, ⟨4294967295, 4294967295⟩] := by decide
+
+/-- **Interval-set parameter, explicit and complete.** Any implementation of the operations the tracker uses that
+    satisfies `IclContract` (canonical iteration; insert = union, erase = difference, contains = subset, on points) is
+    observationally the Lean list model. -/
+theorem interval_set_parameter_is_determined {S : Type} (I : IclContract S) (ops : List IclOp) (hok : ∀ o ∈ ops, o.ok) :
+    I.iter (ops.foldl I.apply I.empty) = ops.foldl applyList [] ∧
+    ∀ lo hi, lo ≤ hi → I.contains (ops.foldl I.apply I.empty) lo hi = containsIvl (ops.foldl applyList []) lo hi :=
+  icl_unique I ops hok
+
+/-- **Canonical-form lemmas of the list model**: insertion keeps the list sorted, disjoint and non-touching and denotes
+    the union; erasure keeps it so and denotes the difference; a canonical list is determined by its points. -/
+theorem interval_list_canonical_forms (s : ISet) (hc : Canon s) (lo hi : Nat) (h : lo ≤ hi) :
+    (Canon (insertIvl s lo hi) ∧ Canon (eraseIvl s lo hi) ∧
+      (∀ p, ISet.mem (insertIvl s lo hi) p = true ↔ (ISet.mem s p = true ∨ (lo ≤ p ∧ p ≤ hi))) ∧
+      (∀ p, ISet.mem (eraseIvl s lo hi) p = true ↔ (ISet.mem s p = true ∧ ¬ (lo ≤ p ∧ p ≤ hi)))) ∧
+    (∀ s', Canon s' → (∀ p, ISet.mem s p = ISet.mem s' p) → s = s') :=
+  ⟨list_model_canonical s hc lo hi h, fun s' hc' hp => canon_ext s s' hc hc' hp⟩
 
 end Tins.Props.C19
